@@ -303,6 +303,17 @@ def correspond(ctx, scale):
                 failures.append({'key': 'fsq:aliases-constructor-argument', 'what': f'FSQ({levels}): editing the caller\'s own levels list after construction changes the module\'s output', 'case': dict(levels=levels)})
             if not (torch.equal(o_eval, o_train) and torch.equal(i_eval, i_train)):
                 failures.append({'key': 'fsq:depends-on-training-flag', 'what': f'FSQ({levels}, sym={sym}) without noise dropout: train and eval outputs differ', 'case': dict(levels=levels)})
+            # memory layout of the caller's tensor: the scalar map is a function of the VALUE - the same values stored transposed / strided / at an
+            # offset (a time-major activation viewed batch-first, a slice of a larger buffer) quantize identically, in eval and in training
+            for vname, xv in callzoo.layout_variants(torch, x) + [('permuted-view', x.transpose(0, 1).contiguous().transpose(0, 1)), ('feature-permuted-view', x.permute(0, 2, 1).contiguous().permute(0, 2, 1))]:
+                for tr_ in (False, True):
+                    q.train(tr_)
+                    o_v, i_v = q(xv)
+                    dist['memory_layout_variants'] = dist.get('memory_layout_variants', 0) + 1
+                    if not (torch.equal(o_v, o_eval) and torch.equal(i_v, i_eval)):
+                        failures.append({'key': f'fsq:depends-on-memory-layout:{vname}', 'what': f'FSQ({levels}, num_codebooks={ncb}, sym={sym}) train={tr_}: the same values stored as {vname} quantize differently '
+                                         f'({int((i_v != i_eval).sum())} of {i_eval.numel()} indices)', 'case': dict(levels=levels, variant=vname)})
+            q.eval()
             # layouts: image layout = flattened sequence
             xi = x.reshape(2, 5, 1, -1).permute(0, 3, 1, 2)       # b d h w with h=5, w=1
             oi, ii = q.eval()(xi)
